@@ -32,6 +32,7 @@ typedef struct {
     void (*ctx_reset)(void); int (*ctx_live)(void); int (*ctx_created)(void); int (*ctx_destroyed)(void); int (*ctx_errors)(void);
     void (*ctx_fail_next)(int, int);
     int (*get_errcode)(void *);
+    int (*utf8_domain)(int *, const char *, size_t, int);   /* NULL on the idnkit build (context argument) */
 } lib_t;
 static lib_t LIB[3]; static int NLIB;
 /* the writable static memory of each backend library (minus RELRO) is snapshotted after loading and restored before every run and
@@ -58,6 +59,7 @@ static void load_lib(const char *path) {
     lib_t *l = &LIB[NLIB++]; l->h = dlopen(path, RTLD_NOW | RTLD_LOCAL);
     if (!l->h) { fprintf(stderr, "dlopen %s: %s\n", path, dlerror()); exit(2); }
     SYM(l, new_, "shim_new"); SYM(l, delete_, "shim_delete"); SYM(l, init, "shim_init"); SYM(l, free_, "shim_free"); SYM(l, setup, "shim_setup");
+    *(void **)&l->utf8_domain = dlsym(l->h, "shim_utf8_domain");
     SYM(l, is_email, "shim_is_email"); SYM(l, errstr, "shim_errstr"); SYM(l, set_rfc, "shim_set_rfc"); SYM(l, set_tld, "shim_set_tld"); SYM(l, set_mask, "shim_set_mask");
     SYM(l, canon, "shim_canon"); SYM(l, outcome, "shim_outcome"); SYM(l, ledger_reset, "shim_ledger_reset"); SYM(l, ledger_live, "shim_ledger_live");
     SYM(l, ledger_double_free, "shim_ledger_double_free"); SYM(l, ledger_foreign_free, "shim_ledger_foreign_free"); SYM(l, inject, "shim_inject"); SYM(l, disarm, "shim_disarm");
@@ -560,6 +562,28 @@ static void policy_shard(long shard, void *arg) {
  * (a pre-processing step, a copy).  Every address of the IDN-flavoured corpora, mode 6531, tld_check on and off, three environment answers
  * (none, code without buffer, code with buffer): the ledger must show no block left after eav_free, at most the result record before it; an
  * injected failure is contained (rejected, IDN error, converter's message, no flag). */
+/* the per-part entry point with ONE idn-code variable shared across calls (how tests/ and direct callers use it): every code x buffer x tld_check,
+ * then a conversion that succeeds, then a name that fails for a non-IDN reason - the variable always reports the call just made */
+static int C_DIRECT;
+static void direct_runs(long shard, void *arg) {
+    (void)shard; (void)arg; lib_t *l = &LIB[0]; if (!l->utf8_domain) return;
+    static const char *const FOLLOW[] = { "ok.com", "\xd0\xb6.\xd1\x80\xd1\x84", "a..b", "-a.com", "singlelabel", "a.zzzzq" };
+    for (int c = 0; c < NCODES; c++) for (int b = 0; b < 2; b++) for (int t = 0; t < 2; t++) for (unsigned f = 0; f < sizeof FOLLOW / sizeof FOLLOW[0]; f++) {
+        char cfg[64]; snprintf(cfg, sizeof cfg, "direct code=%d buf=%d tld=%d follow=%u", c, b, t, f);
+        mc_current("noreplay-direct", cfg, "", 0);
+        l->ledger_reset(); int r = -777;
+        l->inject(IDNCODES[c], b); int rc1 = l->utf8_domain(&r, "host.example.org", 16, t); int consumed = !l->inject_pending(); l->disarm();
+        MC_ADD(C_EVAL, 2); MC_ADD(C_DIRECT, 1);
+        if (consumed && (rc1 != -2 || r != IDNCODES[c])) mc_violation("noreplay-direct", "direct:failure-not-reported", "", cfg, "", 0, "injected %d: is_utf8_domain returned %d, *r=%d", IDNCODES[c], rc1, r);
+        int r_fresh = -777, rc_fresh, rc2;
+        rc2 = l->utf8_domain(&r, FOLLOW[f], strlen(FOLLOW[f]), t);
+        rc_fresh = l->utf8_domain(&r_fresh, FOLLOW[f], strlen(FOLLOW[f]), t);
+        if (rc2 != rc_fresh || r != r_fresh)
+            mc_violation("noreplay-direct", "direct:idn-code-variable-keeps-the-earlier-failure", "", cfg, "", 0, "after an injected failure (%d) the next call on \"%s\" gives rc=%d *r=%d; with a fresh variable rc=%d *r=%d", IDNCODES[c], FOLLOW[f], rc2, r, rc_fresh, r_fresh);
+        if (rc_fresh != -2 && r_fresh != 0) mc_violation("noreplay-direct", "direct:idn-code-not-reset-on-success", "", cfg, "", 0, "\"%s\": rc=%d (no IDN error) but *r=%d (started from -777)", FOLLOW[f], rc_fresh, r_fresh);
+        if (l->ledger_live() != 0) mc_violation("noreplay-direct", "direct:leak", "", cfg, "", 0, "%d block(s) live after three is_utf8_domain calls", l->ledger_live());
+    }
+}
 static int C_FCORPUS;
 static void fault_corpus_sink(const unsigned char *s, size_t n, void *arg) {
     (void)arg; static char buf[70100]; if (n + 2 > sizeof buf) return;
@@ -628,8 +652,8 @@ static void pairs_shard(long shard, void *arg) {
  * 26 domain parts x {as is, upper case, rooted, upper case + rooted} + local-part / degenerate shapes; every ordered pair (A, B) x every ordered
  * pair of (mode, tld_check) configurations, A on one object, B on a second object (and, same configuration, on the same object); B's outcome must
  * be the outcome of B on a fresh object in a fresh library state. */
-static char XP[200][300]; static int NXP; static char *XPWANT[4][2][200];
-static void xp_add(const char *a) { if (NXP < 200) snprintf(XP[NXP++], 300, "%s", a); }
+static char XP[220][300]; static int NXP; static char *XPWANT[4][2][220];
+static void xp_add(const char *a) { if (NXP < 220) snprintf(XP[NXP++], 300, "%s", a); }
 static void xpairs_build(void) {
     static const char *const DOM[26] = { "a.com", "mail.host.com", "a.org", "a.ac", "a.museum", "a.arpa", "example.com", "a.example.org", "a.test", "localhost", "a.localhost", "a.zz", "a.zzzzq",
         "a", "a.xn--p1ai", "xn--80a1acny.xn--p1ai", "\xd0\xb6.\xd1\x80\xd1\x84", "\xd0\xbf\xd0\xbe\xd1\x87\xd1\x82\xd0\xb0.com", "a.b.c.d.e.net", "a-b.com", "1.com", "a.co.uk", "a.onion", "a.invalid", "a.info", "b.de" };
@@ -645,6 +669,7 @@ static void xpairs_build(void) {
     static const char *const OTHER[] = { "x@[1.2.3.4]", "x@[IPv6:::1]", "x@[IPv6:1:2:3:4:5:6:7:8]", "x@[1.2.3.256]", "x@[IPv6:1::2::3]", "x@[1.2.3.4", "x@-a.com", "x@a..com", "x@a.c_m", "x@a.com..",
         "x@\xd0\xb6\xe3\x80\x82" "com", "x@\xc2\xad.com", "x@a\xff.com", "x@xn--a.com", "x@\xef\xbd\x83\xef\xbd\x8f\xef\xbd\x8d.\xef\xbd\x83\xef\xbd\x8f\xef\xbd\x8d", "x@\xe2\x99\xa5.de",
         "\"a b\"@a.com", "a..b@a.com", "\"a\"b@a.com", "\xd0\xb6@a.com", "a\x01@a.com", "\"\"@a.com", " @a.com", "\"a\\ b\"@a.com", "a#b@a.com", "a.b@a.COM", "\"q@r\"@a.Org.",
+        "x@example.info", "x@example.co", "x@mail.example.museum", "x@example.nosuchtld", "x@test.com", "x@examples.org",
         "", "@", "x@", "@a.com", "x", "x@@a.com", "abcdefghijklmnopqrstuvwxyzabcdefghijklmnopqrstuvwxyzabcdefghijklm@a.com",
         "x@abcdefghijklmnopqrstuvwxyzabcdefghijklmnopqrstuvwxyzabcdefghijklm.com" };
     for (unsigned i = 0; i < sizeof OTHER / sizeof OTHER[0]; i++) xp_add(OTHER[i]);
@@ -780,7 +805,7 @@ int main(int argc, char **argv) {
     mc_driver = PROP;
     C_STATES = mc_counter("states"); C_TRANS = mc_counter("transitions"); C_REPLAYS = mc_counter("histories_replayed");
     C_EMAILT = mc_counter("email_transitions_compared_with_fresh_object"); C_LIBCALLS = mc_counter("library_calls");
-    C_FAULTRUNS = mc_counter("fault_runs"); C_XPAIRS = mc_counter("cross_mode_pairs"); C_FCORPUS = mc_counter("fault_corpus_calls"); C_POLPAIRS = mc_counter("policy_pairs"); mc_counter("bfs_depth_at_fixpoint"); mc_counter("distinct_email_outcomes"); mc_counter("frontier_left");
+    C_FAULTRUNS = mc_counter("fault_runs"); C_XPAIRS = mc_counter("cross_mode_pairs"); C_FCORPUS = mc_counter("fault_corpus_calls"); C_DIRECT = mc_counter("direct_validator_sequences"); C_POLPAIRS = mc_counter("policy_pairs"); mc_counter("bfs_depth_at_fixpoint"); mc_counter("distinct_email_outcomes"); mc_counter("frontier_left");
     build_long_pool();
     { static const int Q[13] = { 0, 1, 2, 3, 4, 5, 6, 7, 16, 17, 18, 20, 21 }; if (!mc_thorough) { for (int i = 0; i < 13; i++) PIDX[i] = Q[i]; NPOOL = 13; } }
     if (mc_thorough) { NPOOL = 22; NMASK = 4; NPOISON = 4; }
@@ -804,6 +829,7 @@ int main(int argc, char **argv) {
         mc_parallel(nmx, NXP, xpairs_shard, NULL);
         polpairs_build(); snprintf(nmx, sizeof nmx, "polpairs: %d class / form representatives x 14 masks x 4 modes, each right after every one of %d feature addresses on the same object", NPOL, NXP);
         mc_parallel(nmx, NXP, polpairs_shard, NULL); }
+    if (FAULTS) mc_parallel("direct is_utf8_domain with one shared idn-code variable: every code x buffer x tld_check x 6 follow-up names", 1, direct_runs, NULL);
     if (FAULTS) { CORPUS_DEEP = mc_thorough; if (corpus_load()) return 2;
         static const int PHF[] = { CP_IDN, CP_WHOLEDOM, CP_ALTDOT, CP_LONGIDN, CP_LPXDOM, CP_DEPTH, CP_BYTES };
         for (unsigned i = 0; i < sizeof PHF / sizeof PHF[0]; i++) { CURPH = PHF[i]; char nmf[96]; snprintf(nmf, sizeof nmf, "fault corpus (3 environment answers x tld on/off): %.40s", corpus_name(CURPH)); mc_parallel(nmf, corpus_shards(CURPH), fault_corpus_shard, NULL); } }
